@@ -207,7 +207,7 @@ func sendFaultCase(g *hx.Gen, idx int, before, after int) (string, []map[string]
 	for _, u := range users {
 		u.c.Close()
 	}
-	text := fmt.Sprintf("CPool %d %d %s [] %d %s false [] %s []", cpc, smax, hx.List(reqs), wfailFrom, hx.List(phases), hx.List(codes))
+	text := fmt.Sprintf("CPool %d %d %s [] %d %s false [] %s [] []", cpc, smax, hx.List(reqs), wfailFrom, hx.List(phases), hx.List(codes))
 	return text, fails, nil
 }
 
